@@ -256,6 +256,8 @@ def cli(ctx):
                 flags.append("--stop-on-nonmatch")
             if rng.random() < 0.2:
                 flags.append("-U")
+            if enc is not None and rng.random() < 0.3:
+                flags += ["-E", "none"]        # no transcoding, no mark stripping: the raw bytes, whatever the strategy
             pat = rng.choice(["a", "b", "ab", "x$", "^a", "a|b"])
             if "-U" in flags or (cjk and rng.random() < 0.7):
                 if "-U" not in flags:
